@@ -182,7 +182,17 @@ let run (toks : string list) (cout : string list) : string =
         let (polys, rest) = take 3 rest [] in
         (match rest with ";" :: ops -> (mode, pool, polys, ops) | _ -> failwith "no ; in case")
       | _ -> failwith "not a c09 case" in
-    ignore mode;
+    (* "O:-20": battery mode and LP_VALUE_APPROX_MIN_MAGNITUDE of the tree under test *)
+    let magnitude = match split ':' mode with [_; k] -> int_of_string k | _ -> -20 in
+    let floor_width = (z_of_int 1, pow2 (n_of_int (2 - magnitude))) in      (* 2^(magnitude - 2) *)
+    let check_restored (what : string) (before : rep array) (after : rep array) =
+      Array.iteri (fun i (a : rep) ->
+          let b = before.(i) in
+          if a.kind = "a" && b.kind = "a" then begin
+            let wa = q_sub a.hi a.lo and wb = q_sub b.hi b.lo in
+            if not (q_le (q_min wb floor_width) wa) then
+              fail "%s: slot %d stays narrowed after the operation (%s, before %s): the remembered interval was not put back" what i a.tok b.tok
+          end) after in
     let pool = Array.of_list (List.map (fun t -> fresh (rnum_of_token t)) pool_toks) in
     let polys = Array.of_list (List.map mpoly_of_string poly_toks) in
     let rho (extra : rnum option) (v : n) : rnum =
@@ -360,7 +370,7 @@ let run (toks : string list) (cout : string list) : string =
          | ["ps"; _] ->
            let k = slot 1 in
            let e = pval_sign (eval_ref (rho None) polys.(k)) in
-           obs_sign "lp_polynomial_sgn" e; predict := None
+           obs_sign "lp_polynomial_sgn" e; predict := None; after_check := check_restored what before
          | ["pe"; _] ->
            let k = slot 1 in let o = next () in
            let e = eval_ref (rho None) polys.(k) in
@@ -371,7 +381,7 @@ let run (toks : string list) (cout : string list) : string =
            (match List.find_opt (fun (k', key', _) -> k' = k && key' = key) !evals_seen with
             | Some (_, _, v0) -> if sg (some (rn_cmp fuel v0 r.v)) <> 0 then fail "%s: evaluation repeated on an unchanged pool gives another value: %s" what o
             | None -> evals_seen := (k, key, r.v) :: !evals_seen);
-           predict := None
+           predict := None; after_check := check_restored what before
          | ["pr"; _] ->
            let k = slot 1 in
            let n = int_of_string (next ()) in
@@ -389,7 +399,7 @@ let run (toks : string list) (cout : string list) : string =
               if List.length rs0 <> n || not (List.for_all2 (fun a b -> sg (some (rn_cmp fuel a b)) = 0) rs0 rs) then
                 fail "%s: root isolation repeated on an unchanged pool gives different roots" what
             | None -> roots_seen := (k, key, rs) :: !roots_seen);
-           predict := None
+           predict := None; after_check := check_restored what before
          | _ -> fail "unknown op %s" optok);
         (* ---- representations after the operation *)
         expect "|";
@@ -433,9 +443,14 @@ let run (toks : string list) (cout : string list) : string =
         check_narrow bwhat after after2 [];
         if timing then Printf.eprintf "step %d %s %.2fs\n%!" !step optok (Sys.time () -. t0);
         reps := after2) ops;
-    if !out <> [] then fail "C output has trailing tokens";
+    (match !out with
+     | [] -> ()
+     | ["LEAK"] -> fail "memory was leaked during the history (LeakSanitizer): something remembered was never released"
+     | _ -> fail "C output has trailing tokens");
     "CHECK ok"
   with
-  | Fail m -> "CHECK fail " ^ m
+  | Fail m ->
+    let pre = "step " ^ string_of_int !step ^ " (" ^ !cur_op ^ ")" in
+    if String.length m >= 5 && String.sub m 0 5 = "step " then "CHECK fail " ^ m else "CHECK fail " ^ pre ^ ": " ^ m
   | Fuel -> "FUEL at step " ^ string_of_int !step ^ " (" ^ !cur_op ^ ")"
-  | Bad_value m -> "CHECK fail " ^ m
+  | Bad_value m -> "CHECK fail step " ^ string_of_int !step ^ " (" ^ !cur_op ^ "): " ^ m
